@@ -307,6 +307,37 @@ Section P.
   Proof.
     intros l Hs fuel Hf. apply (recovery_segments_gen l 0 Hs fuel [] [] None); [intros q Hq; discriminate | lia].
   Qed.
+
+  (* where an error is located: the ParseError carries the location of the token under the cursor when parseStatement
+     gave up, i.e. of token [p'] for [ps start = SErr c p'] *)
+  Definition err_loc (start : nat) : nat := match ps start with SErr _ p' => p' | SOk _ _ => start end.
+
+  (* every error of a segmented input is located inside its own segment: at or after the first token of the failing
+     statement, and no semicolon lies between the located token and the terminator (semicolon / end of input) of
+     that segment — the location never names a token of an earlier or a later statement *)
+  Definition located_in_segment (sc : nat * N) : Prop :=
+    exists p' e, ps (fst sc) = SErr (snd sc) p' /\ err_loc (fst sc) = p' /\ fst sc <= p' /\ p' <= e /\
+                 (term_semi e \/ term_end e) /\ (forall k, p' <= k < e -> is_semi k = false).
+
+  Theorem segs_errors_located : forall l pos, segs pos l -> Forall located_in_segment (bads l).
+  Proof.
+    intros l pos Hs. induction Hs as [pos Hr | pos l Hr Hsm Hs IH | pos t e l Hr Hsm Hps Ht Hs IH
+                                     | pos c p' e l Hr Hsm Hps Hpe Hlt Hmid Ht Hs IH
+                                     | pos t e1 c p' e l Hr Hsm Hps Hr1 Hsm1 Hk1 Hps1 Hpe Hlt Hmid Ht Hs IH];
+      cbn [bads]; try assumption; [constructor | |].
+    - constructor; [|exact IH]. exists p', e. cbn [fst snd]. unfold err_loc. rewrite Hps.
+      pose proof (ps_mono _ _ _ Hps) as Hm.
+      repeat split; try assumption.
+      intros k Hk. destruct (Nat.eqb_spec p' pos) as [->|Hne].
+      + destruct (Nat.eq_dec k pos) as [->|Hnk]; [exact Hsm|]. apply Hmid. lia.
+      + apply Hmid. lia.
+    - constructor; [|exact IH]. exists p', e. cbn [fst snd]. unfold err_loc. rewrite Hps1.
+      pose proof (ps_mono _ _ _ Hps1) as Hm.
+      repeat split; try assumption.
+      intros k Hk. destruct (Nat.eqb_spec p' e1) as [->|Hne].
+      + destruct (Nat.eq_dec k e1) as [->|Hnk]; [exact Hsm1|]. apply Hmid. lia.
+      + apply Hmid. lia.
+  Qed.
 End P.
 
 (* ------------------------------------------------------------------ C07: batch calls *)
